@@ -645,6 +645,9 @@ SEED_OPS = [
     ("lit_recv_pad_end", "'lit'.padEnd(a, b) + a.padEnd(3)"), ("lit_recv_replace_all", "'lit'.replaceAll(a, 'b') + 'lit'.replaceAll('x', 'y')"),
     ("escaped_method", "a.\\u0073ubstring(1)"), ("escaped_method_opt", "a?.\\u{74}rim()"), ("proto_mid_path", "K.prototype.name.trim() + o.prototype.x?.trim()"),
     ("same_path_twice", "o.x + o.x"), ("same_path_call", "o.x.concat(o.x, o.x)"), ("tpl_no_subst", "`use strict` + a"),
+    ("lit_plus_undefined", "'a' + undefined + c"), ("plus_undefined", "'Hello ' + undefined"), ("tpl_undefined", "`${'a' + undefined}${c}`"),
+    ("long_chain", "a" + " + b" * 150), ("long_chain_calls", " + ".join("f(%d)" % i for i in range(140))),
+    ("proto_call_nested", "String.prototype.concat.call(a.trim(), b.trim())"), ("proto_apply_nested", "String.prototype.concat.apply(a.trim(), [b.trim(), c + d])"),
     ("pluseq_paren", "(a) += b"), ("pluseq_paren_member", "(o.x) += f()"), ("pluseq_super", "super.x += b"), ("pluseq_super_computed", "super[k] += `t${a}`"),
     ("pluseq_this", "this.x += a"), ("pluseq_private", "this.#p += a"),
     ("delete_optchain", "delete a?.b.substring(1).x"), ("delete_computed", "delete o[a + b]"),
